@@ -264,7 +264,9 @@ func soupOracle(c *kit.Case) error {
 
 // ---- generator
 
-var cellTexts = []string{"a", "b", "foo", "x y", "*em*", "**s**", "`c`", "`a\\|b`", "a\\|b", "\\|", "1", "", "", " ", "é", "[l](u)", "<b>", "&amp;", "~~d~~", "a*b", "`", "`<b>\\|`", "`x\\|\"y`", "`&\\|<`"}
+var cellTexts = []string{"a", "b", "foo", "x y", "*em*", "**s**", "`c`", "`a\\|b`", "a\\|b", "\\|", "1", "", "", " ", "é", "[l](u)", "<b>", "&amp;", "~~d~~", "a*b", "`", "`<b>\\|`", "`x\\|\"y`", "`&\\|<`",
+	// bytes that are not valid UTF-8 at the edge of a cell (a lead byte whose continuation bytes would be the pipe), wide characters
+	"caf\xe9", "x\xc4", "\xfc", "\xf0\x9f", "\xe3\x81", "\x80", "a\xc3", "\xc3 ", "日本", "\u3000", "é\xcc"}
 
 func drawCell(t *rapid.T) string {
 	return rapid.SampledFrom(cellTexts).Draw(t, "cell")
